@@ -1733,7 +1733,7 @@ static void *peg_unmarshal(JanetMarshalContext *ctx) {
                 break;
             case RULE_READINT:
                 /* [ width | (endianness << 5) | (signedness << 6), tag ] */
-                if (rule[1] > JANET_MAX_READINT_WIDTH) goto bad;
+                if ((rule[1] & ~0x30u) > JANET_MAX_READINT_WIDTH) goto bad;
                 i += 3;
                 break;
             case RULE_NTH:
